@@ -91,8 +91,9 @@ def _attack(data, sig=None):
     m = B.Meter(limit)
     st_, v = m.run(p.dataReceived, data)
     out += _judge('dataReceived', st_, None, m, n, lambda r: 0, desc)
-    if len(p._buffer) > n:
-        out.append(Disc('dataReceived.buffer-grew', '%d > %d' % (len(p._buffer), n)))
+    held = getattr(p, '_buffer', b'')
+    if len(held) > n:
+        out.append(Disc('dataReceived.buffer-grew', '%d > %d' % (len(held), n)))
     # no global damage
     try:
         c = MSG.parseMessage(_CANARY, [])
